@@ -76,6 +76,18 @@ def feasible_items(tier):
             sp = F.with_teams(fl, lay)
             for rule in rules:
                 out.append((sp, {"rule": rule, "max_time": F.seq_bound(sp) + 2 + 2}))
+    # fixed worker-ID lists naming a worker who does not sort first (still feasible: the listed worker is eligible)
+    for fl in list(F.flows(3, ("FS", "SS"), (1, 2)))[:: (4 if tier == "quick" else 1)]:
+        for fx, lay in ((["W1"], "POOL2"), (["W2", "W1"], "POOL3"), (["W1"], "MIX")):
+            sp = F.with_teams(fl, lay)
+            sp = dict(sp, tasks=[dict(t) for t in sp["tasks"]])
+            sp["tasks"][1]["fixw"] = fx
+            out.append((sp, {"rule": "TSLACK", "max_time": F.seq_bound(sp) * 2 + 6}))
+    # teams wired through the constructor keyword only (the team knows its tasks, the tasks do not know the team)
+    for fl in list(F.flows(3, ("FS",), (1, 2)))[:: (4 if tier == "quick" else 1)]:
+        sp = F.with_teams(fl, "POOL2")
+        sp = dict(sp, teams=[dict(tm, wire="ctor") for tm in sp["teams"]])
+        out.append((sp, {"rule": "TSLACK", "max_time": F.seq_bound(sp) + 6}))
     if tier == "thorough":
         for fl in F.flows(4, F.KINDS4, (1,)):
             sp = F.with_teams(fl, "DED")
